@@ -667,7 +667,7 @@ func (ex *Exec) cursorRecv(st *State, c cursor, fn *types.Func) *Val {
 		// &x
 		if c.loc != nil {
 			pt := types.NewPointer(c.t)
-			return &Val{Sh: ex.eng.sh.shapeOf(pt), T: pt, S: ex.eng.smt.named("interior", "Int"), Loc: c.loc}
+			return &Val{Sh: ex.eng.sh.shapeOf(pt), T: pt, S: ex.eng.interior(), Loc: c.loc}
 		}
 		// not addressable: temp copy
 		return ex.cursorVal(st, c)
@@ -691,7 +691,7 @@ func (ex *Exec) evalUnary(st *State, e *ast.UnaryExpr, sc *SpecCtx) *Val {
 				// &local: the local escapes; model as an interior pointer to the local
 			}
 			pt := types.NewPointer(l.T)
-			return &Val{Sh: ex.eng.sh.shapeOf(pt), T: pt, S: ex.eng.smt.named("interior", "Int"), Loc: l}
+			return &Val{Sh: ex.eng.sh.shapeOf(pt), T: pt, S: ex.eng.interior(), Loc: l}
 		}
 		ex.note("address-of unmodelled at %s", ex.pos(e.Pos()))
 		return ex.freshVal(ex.typeOf(e), "addr")
